@@ -4,7 +4,8 @@
      Parse     = CommandManager.parse_partial: command_lexer.expr.parse_string(line, parse_all=True)
                  (ExpandTabs = TRUE: pyparsing expands TABs to 8-column tab stops before it parses -- the code before
                   commit eda6c3c2d; FALSE: expr.parse_with_tabs() is set, TABs reach the lexer -- the code as it is)
-     Call      = CommandManager.execute: drop Space parts (part.isspace()), unquote, call_strings ->
+     Call      = CommandManager.execute (possibly several times for the same line: parse_partial is lru_cached and
+                 returns the same list object again): drop Space parts (part.isspace()), unquote, call_strings ->
                  Command.prepare_args -> types.*.parse per argument (str: backslash escapes are interpreted)
    Strings are sequences of code points.  The arguments, the parameter type and the separator are chosen in Init
    (one initial state per scenario).
@@ -23,9 +24,10 @@ CONSTANTS Alphabet,   \* set of code points arguments are built from
           SepLen,     \* lines whose arguments have at most this total length are built with every separator of Seps,
                       \* longer ones with a single space
           CmdName,    \* function pt -> name of the registered test command (code points)
-          ExpandTabs  \* BOOLEAN, see Parse above
-VARIABLES args, pt, sep, pc, line, parts, mon, obs
-vars == <<args, pt, sep, pc, line, parts, mon, obs>>
+          ExpandTabs, \* BOOLEAN, see Parse above
+          MaxExec     \* how often the same line is executed on the same CommandManager
+VARIABLES args, pt, sep, pc, line, parts, execs, mon, obs
+vars == <<args, pt, sep, pc, line, parts, execs, mon, obs>>
 
 Live == mon.bad = <<>>
 Emit(evs) == obs' = evs /\ mon' = FoldEvents(MonStep, mon, evs)
@@ -38,7 +40,7 @@ Concat(ss) == IF ss = <<>> THEN <<>> ELSE Head(ss) \o Concat(Tail(ss))
 SepsFor(al) == IF Len(Concat(al)) <= SepLen THEN Seps ELSE {<<32>>}
 
 Init == /\ args \in ArgLists /\ pt \in DOMAIN CmdName /\ sep \in SepsFor(args)
-        /\ pc = "start" /\ line = <<>> /\ parts = <<>> /\ mon = MonInit /\ obs = <<>>
+        /\ pc = "start" /\ line = <<>> /\ parts = <<>> /\ execs = 0 /\ mon = MonInit /\ obs = <<>>
 
 HasAny(s, S) == \E i \in 1..Len(s) : s[i] \in S
 
@@ -52,7 +54,7 @@ Quote(v) ==
 \* console_command: cmd, then every quoted argument preceded by the separator, then a trailing space
 BuildLine ==
   /\ Live /\ pc = "start"
-  /\ pc' = "built" /\ UNCHANGED <<args, pt, sep, parts>>
+  /\ pc' = "built" /\ UNCHANGED <<args, pt, sep, parts, execs>>
   /\ LET l == CmdName[pt] \o Concat([i \in 1..Len(args) |-> sep \o Quote(args[i])]) \o <<32>>
      IN /\ line' = l
         /\ Emit(<<[k |-> "line", pt |-> pt, sent |-> args, line |-> l]>>)
@@ -82,7 +84,7 @@ Lex(s, i) ==
 
 Parse ==
   /\ Live /\ pc = "built"
-  /\ pc' = "parsed" /\ UNCHANGED <<args, pt, sep, line>>
+  /\ pc' = "parsed" /\ UNCHANGED <<args, pt, sep, line, execs>>
   /\ LET ps == Lex(IF ExpandTabs THEN Expand(line, 1, 0) ELSE line, 1)
      IN /\ parts' = ps
         /\ Emit(<<[k |-> "parts", parts |-> ps]>>)
@@ -116,10 +118,12 @@ StrParse(s, i) ==
 
 Convert(a) == IF pt = "str" THEN StrParse(a, 1) ELSE <<TRUE, a>>
 
-\* execute: unquote the non-space parts, first is the command name, convert the rest and call
+\* execute: parse_partial(line) -- an lru_cache hit from the second time on: `parts` is the CACHED list, which execute
+\* must only read -- then unquote the non-space parts, first is the command name, convert the rest and call.
+\* The same line may be executed again on the same CommandManager (a key binding, command history).
 Call ==
-  /\ Live /\ pc = "parsed"
-  /\ pc' = "done" /\ UNCHANGED <<args, pt, sep, line, parts>>
+  /\ Live /\ pc = "parsed" /\ execs < MaxExec
+  /\ execs' = execs + 1 /\ UNCHANGED <<args, pt, sep, pc, line, parts>>
   /\ LET vals == SelectSeq(parts, LAMBDA p : ~IsSpacePart(p))
          argv == [i \in 1..(Len(vals) - 1) |-> Convert(Unquote(vals[i + 1]))]
          ok   == \A i \in 1..Len(argv) : argv[i][1]
